@@ -193,6 +193,7 @@ func (p *FSM) Open(_ <-chan struct{}) (uint64, error) {
 	if lx != 0 {
 		p.appliedFunc(lx)
 	}
+	verifState("open", p)
 	return idx, nil
 }
 
@@ -323,6 +324,7 @@ func (p *FSM) Update(updates []sm.Entry) ([]sm.Entry, error) {
 	} else {
 		p.appliedFunc(idx)
 	}
+	verifUpdated(p, updates)
 	return updates, nil
 }
 
@@ -335,6 +337,7 @@ func (p *FSM) Sync() error {
 
 // Close closes the KVStateMachine IStateMachine.
 func (p *FSM) Close() error {
+	verifState("close", p)
 	p.closed = true
 	prometheus.Unregister(p)
 	db := p.pebble.Load()
@@ -397,6 +400,7 @@ func (p *FSM) SaveSnapshot(ctx interface{}, w io.Writer, stopc <-chan struct{}) 
 // the io.Reader object. The snapshot is recovered into a new DB first and then
 // atomically swapped with the existing DB to complete the recovery.
 func (p *FSM) RecoverFromSnapshot(r io.Reader, stopc <-chan struct{}) error {
+	defer verifState("recover", p)
 	var header snapshotHeader
 	err := binary.Read(r, binary.LittleEndian, &header)
 	if err != nil {
